@@ -61,6 +61,7 @@ def run(ctx):
                 viol(f"{f.__name__}({prefix + t!r}) = {lo}, {hi}: lower < upper and the version satisfying both do not hold",
                      inputs=dict(expression=prefix + t), observed=[str(lo), str(hi)])
     # ---- gem: bump, release, pessimistic constraint
+    gem_reqs, gem_wants = [], []
     for v in gens.near_pool(r, vs.RubygemsVersion, n) + gens.valid_pool(r, vs.RubygemsVersion, n // 2):
         g = v.value
         evals += 1
@@ -71,6 +72,11 @@ def run(ctx):
             viol(f"GemVersion({v.string!r}): bump/release raised {e!r}", inputs=dict(version=v.string))
             continue
         nontrivial.add(("gem", v.string))
+        # the model the gem theorem is about: canonical segments of bump() and release()
+        if all(ord(ch) < 127 for ch in v.string):
+            seg = lambda gv: ".".join(str(x) for x in gv.canonical_segments)
+            gem_reqs.append(f"gemhelpers {text.hx(v.string)}")
+            gem_wants.append((v.string, "OK " + " ".join(text.hx(t) for t in (seg(b), seg(rel), seg(g)))))
         if not ok:
             viol(f"GemVersion({v.string!r}): bump = {b}, release = {rel}: expected v < bump, v <= release, release without pre-release part",
                  inputs=dict(version=v.string), observed=[str(b), str(rel)])
@@ -105,6 +111,10 @@ def run(ctx):
             if not ok:
                 viol(f"ConanVersion({v.string!r}): upper_bound({i}) = {ub}, bump({i}) = {bp}: expected v < upper_bound < bump",
                      inputs=dict(version=v.string, index=i), observed=[str(ub), str(bp)])
+    for q, g, (sv, w) in zip(gem_reqs, core.run_driver(ctx, gem_reqs), gem_wants):
+        evals += 1
+        if g != w:
+            diffs.append(dict(request=q, version=sv, model=g, impl=w))
     got = core.run_driver(ctx, reqs)
     evals += len(reqs)
     for q, g, (w, s) in zip(reqs, got, wants):
